@@ -30,7 +30,7 @@ fn moments(op: &Op) -> R {
     if ints.is_empty() {
         return Ok(());
     }
-    let scale = [1.0, 0.125, 0.1, 1e6, 1e-5, 0.001][op.aux.get(1).and_then(|a| a.first()).copied().unwrap_or(0).rem_euclid(6) as usize];
+    let scale = [1.0, 0.125, 0.1, 1e6, 1e-5, 0.001, 1e100, 1e198, 1e-160][op.aux.get(1).and_then(|a| a.first()).copied().unwrap_or(0).rem_euclid(9) as usize];
     let kind = op.aux.get(2).and_then(|a| a.first()).copied().unwrap_or(0);
     let offset = op.aux.get(3).and_then(|a| a.first()).copied().unwrap_or(0) as f64;
     let p = op.idx.first().copied().unwrap_or(0).min(10) as u16;
@@ -128,7 +128,8 @@ where
 
 macro_rules! float_weighted {
     ($t:ty, $shape:expr, $ints:expr, $wints:expr, $axis:expr, $ddof:expr, $f:expr, $static:expr, $scale:expr) => {{
-        let data: Vec<$t> = $ints.iter().map(|&v| v as $t * $scale as $t).collect();
+        // integers beyond +-10^6 stand for huge magnitudes and infinities
+        let data: Vec<$t> = $ints.iter().map(|&v| if v == 2_000_000 { <$t>::INFINITY } else if v == -2_000_000 { <$t>::NEG_INFINITY } else if v.abs() > 1_000_000 { (v as $t) * (<$t>::MAX / 4_000_000.0) } else { v as $t * $scale as $t }).collect();
         let a = build(&$shape, data, $f);
         let w = Array1::from($wints.iter().map(|&v| v as $t * (if $scale == 0.25 { 0.5 } else { 0.3 }) as $t).collect::<Vec<$t>>());
         let eps = <$t>::EPSILON as f64;
